@@ -1051,8 +1051,12 @@ evhttp_handle_chunked_read(struct evhttp_request *req, struct evbuffer *buf)
 				return (DATA_CORRUPTED);
 			}
 			ntoread = evutil_strtoll(p, &endp, 16);
+			/* The size may be followed by chunk extensions
+			 * (";name=value", possibly after white space), which a
+			 * recipient has to ignore. */
 			error = (*p == '\0' ||
-			    (*endp != '\0' && *endp != ' ') ||
+			    (*endp != '\0' && *endp != ' ' && *endp != '\t' &&
+				*endp != ';') ||
 			    ntoread < 0);
 			mm_free(p);
 			if (error) {
